@@ -310,7 +310,21 @@ func c18PackageMode(c *Ctx, key string, srcs map[string][]byte, out *ndjson, mod
 	// the sets of possible outcomes (package scope + reports) over repeated runs are compared
 	outcomesA, outcomesB := map[string]bool{}, map[string]bool{}
 	var aerr error
-	for rep := 0; rep < 40; rep++ {
+	sameSets := func() bool {
+		if len(outcomesA) != len(outcomesB) {
+			return false
+		}
+		for k := range outcomesA {
+			if !outcomesB[k] {
+				return false
+			}
+		}
+		return true
+	}
+	// (the rarest iteration order of a small Go map comes up about once in eight runs: 40 runs alone would
+	// leave a chance of about 1% per package that one side never shows it, so the sampling goes on, up to
+	// 400 runs, for as long as the two sets differ)
+	for rep := 0; rep < 400 && (rep < 40 || !sameSets()); rep++ {
 		// fresh unresolved lists each time (NewPackage rewrites them)
 		for name, af := range afiles {
 			dfiles[name].Unresolved = nil
